@@ -334,6 +334,46 @@ def verify(dm, c, df, order):
     return problems
 
 
+def exercise(dm, df):
+    """Read-only use of a design: str() of every matrix, as_dataframe() twice, new data with unseen levels in silent
+    mode (printed as well).  Returns a short description of what could be done."""
+    import formulae
+
+    done = []
+    old = formulae.config["EVAL_UNSEEN_CATEGORIES"]
+    try:
+        for m in (dm.response, dm.common, dm.group):
+            if m is not None:
+                str(m), repr(m)
+        if dm.common is not None:
+            dm.common.as_dataframe(), dm.common.as_dataframe()
+        dm.response.as_dataframe(), dm.response.as_dataframe()
+        done.append("printed")
+        nd = df.iloc[:4].reset_index(drop=True).copy()
+        for col in ("f", "g", "h"):
+            nd[col] = nd[col].astype(object)
+            nd.loc[0, col] = "zz new"
+        nd["k"] = nd["k"].astype("int64")
+        nd.loc[1, "k"] = 77
+        formulae.config["EVAL_UNSEEN_CATEGORIES"] = "silent"
+        for m in (dm.common, dm.group):
+            if m is None:
+                continue
+            try:
+                r = m.evaluate_new_data(nd)
+                str(r), repr(r)
+                if m is dm.common:
+                    r.as_dataframe(), r.as_dataframe()
+                done.append("unseen-" + type(m).__name__[:6])
+            except Exception as e:
+                done.append("unseen-raises-" + type(e).__name__)
+    except Exception as e:
+        done.append("raises-" + type(e).__name__)
+    finally:
+        formulae.config["EVAL_UNSEEN_CATEGORIES"] = old
+    return "+".join(done)
+
+
 def check_case(case, acc):
     from formulae import design_matrices
     from fmc.core import exc_sig
@@ -353,8 +393,11 @@ def check_case(case, acc):
         acc.violation("design-exists", exc_sig(e), case, f"{f!r} raised {type(e).__name__}: {e}")
         return
     problems = verify(dm, c, df, order)
-    # a later design built from the same formula text on another frame must not disturb this one
+    # reading operations (printing, data-frame views, new data with unseen levels printed) and a later design built from
+    # the same formula text on another frame must not disturb this one
     acc.calls += 1
+    done = exercise(dm, df)
+    acc.table("reading_operations_between_the_two_verifications", done)
     try:
         design_matrices(f, alt_frame())
     except Exception:
@@ -362,7 +405,7 @@ def check_case(case, acc):
     after = verify(dm, c, df, order)
     if len(after) > len(problems):
         extra = [m for m in after if m not in problems][:1]
-        problems.append(("design-unaffected-by-later-build", f"after building the same formula on another frame: {extra[0][1] if extra else after[0][1]}"))
+        problems.append(("design-unaffected-by-later-build", f"after printing the matrices, evaluating and printing new data with unseen levels and building the same formula on another frame: {extra[0][1] if extra else after[0][1]}"))
     nontriv = bool(c["group"]) or any(len(t) > 1 and set(t) & CATS for t in c["common"])
     if problems:
         acc.case([f, case["n"], case["variant"]], "MISMATCH", sample=False)
